@@ -130,6 +130,9 @@ func (ex *Exec) rowInvAssume(ref *RowRef, row Val, t types.Type) {
 	if ex.rowInvDone == nil {
 		ex.rowInvDone = map[string]bool{}
 	}
+	if ex.rowGuard != nil {
+		memo += "|guarded"
+	}
 	if ex.rowInvDone[memo] {
 		return
 	}
@@ -140,9 +143,14 @@ func (ex *Exec) rowInvAssume(ref *RowRef, row Val, t types.Type) {
 		}
 		r := r
 		nm := Namer{Prefix: ref.Base + "!row", Keys: ref.Key}
+		guard := ex.rowGuard
 		ex.assumeSpec(func() *smt.Term {
 			// a fresh copy of the symbolic row: same leaves, no sharing with the program's copy
-			return ex.rowInvEval(r, ex.symbolic(t, nm), ref.TKey)
+			inv := ex.rowInvEval(r, ex.symbolic(t, nm), ref.TKey)
+			if guard != nil {
+				return smt.Implies(guard, inv)
+			}
+			return inv
 		})
 	}
 }
